@@ -427,7 +427,7 @@ PROPS["C08"] = dict(
            ("c08_ct_Os", "rc", dict(cases=2400, shards=16))],
     thorough=[("c08_ct_Os", "enum", dict(shards=16)), ("c08_ct_O0", "enum", dict(shards=16)), ("c08_ct_O2", "enum", dict(shards=16)),
               ("c08_ct_Os", "rc", dict(cases=16000, shards=16)), ("c08_ct_O0", "rc", dict(cases=4000, shards=16)), ("c08_ct_O2", "rc", dict(cases=16000, shards=16))],
-    floor=dict(quick=400, thorough=4000),
+    floor=dict(quick=400, thorough=3000),
 )
 
 # ---------------------------------------------------------------- manifest text
